@@ -88,9 +88,11 @@ def run_case(case, ctx):
                     continue
                 left.append(cls)
         try:
-            ctx.check(sorted(map(repr, new.unexpanded_verified_classes())) == sorted(map(repr, left)), "unexpanded", "unexpanded_verified_classes disagrees with a direct scan of the rules")
+            reported = sorted(map(repr, new.unexpanded_verified_classes()))
         except Exception as e:
             ctx.fail("unexpanded", f"unexpanded_verified_classes on the result raised {describe_exc(e)}", "unexpanded/raises")
+            reported = sorted(map(repr, left))
+        ctx.check(reported == sorted(map(repr, left)), "unexpanded", "unexpanded_verified_classes disagrees with a direct scan of the rules")
         ctx.check(not left, "finished", f"the expanded specification still has verified classes offering a pack: {left[:2]!r}")
         if todo:
             shared = [r for r in new.rules_dict.values() if any(r is r0 for r0 in before_rules.values())]
